@@ -95,4 +95,34 @@ theorem source_clonables_are_the_modelled_ones :
 
 end Surface
 
+section SurfaceState
+open Orx.GenThms.Surface Orx.Gen
+
+/-- every iterator type holds its *own* `AtomicCounter` by value beside (a reference to / the value of) its source: two iterators, or an
+iterator and its clone, share no mutable state -/
+theorem source_state_is_the_models :
+    fieldsOf "AtomicCounter" = [["current: AtomicUsize"]] ∧
+    fieldsOf "ConIterOfSlice" = [["slice: &'a[T]", "counter: AtomicCounter"]] ∧
+    fieldsOf "ConIterOfRange" = [["range: Range<Idx>", "counter: AtomicCounter"]] ∧
+    fieldsOf "ConIterOfVec" = [["vec: UnsafeCell<ManuallyDrop<Vec<T>>>", "vec_len: usize", "counter: AtomicCounter"]] ∧
+    fieldsOf "ConIterOfArray" = [["array: UnsafeCell<ManuallyDrop<[T;N]>>", "counter: AtomicCounter"]] ∧
+    fieldsOf "ConIterOfIter" = [["iter: UnsafeCell<Iter>", "initial_len: Option<usize>", "reserved_counter: AtomicCounter",
+      "yielded_counter: AtomicCounter", "completed: AtomicBool"]] ∧
+    fieldsOf "CompleteOnUnwind" = [["completed: &'aAtomicBool", "armed: bool"]] ∧
+    fieldsOf "Taken" = [["ptr: *mutT", "len: usize", "idx: usize"]] ∧
+    fieldsOf "BufferedIter" = [["buffered_iter: B", "atomic_iter: &'aB::ConIter", "phantom: PhantomData<T>"],
+      ["values: &'amut[Option<T>]", "initial_len: usize", "current_idx: usize"]] ∧
+    fieldsOf "BufferIter" = [["values: Vec<Option<T>>", "phantom: PhantomData<Iter>"]] ∧
+    fieldsOf "BufferedSlice" = [["chunk_size: usize", "phantom: PhantomData<T>"]] ∧
+    fieldsOf "BufferedVec" = [["chunk_size: usize", "phantom: PhantomData<T>"]] ∧
+    fieldsOf "BufferedArray" = [["chunk_size: usize", "phantom: PhantomData<T>"]] ∧
+    fieldsOf "BufferedRange" = [["chunk_size: usize"]] ∧
+    fieldsOf "ClonedBufferedChunk" = [["chunk: C", "phantom: PhantomData<&'aT>"]] ∧
+    fieldsOf "CopiedBufferedChunk" = [["chunk: C", "phantom: PhantomData<&'aT>"]] ∧
+    fieldsOf "Cloned" = [["iter: A", "phantom: PhantomData<&'aT>"]] ∧ fieldsOf "Copied" = [["iter: A", "phantom: PhantomData<&'aT>"]] ∧
+    fieldsOf "ConIterValues" = [["con_iter: &'aC"]] ∧ fieldsOf "ConIterIdsAndValues" = [["con_iter: &'aC"]] :=
+  Orx.GenThms.Surface.the_state
+
+end SurfaceState
+
 end Orx.Props.C19
